@@ -99,6 +99,14 @@ var weeks = ev.Register(&ev.P[weekCase]{
 		if g := ymd(w.GetFirstDayInMonth()); g != wantIn[0] {
 			return fmt.Errorf("%s: GetFirstDayInMonth=%s, model says %s", desc, g, wantIn[0])
 		}
+		// the accessors are read-only: asking again, in another order, on the same object gives the same week
+		again, err := solars(w.GetDays())
+		if err != nil || strings.Join(again, ",") != strings.Join(want, ",") {
+			return fmt.Errorf("%s: GetDays after GetDaysInMonth/GetFirstDayInMonth = %v (%v), first answer was %v", desc, again, err, want)
+		}
+		if in2, _ := solars(w.GetDaysInMonth()); strings.Join(in2, ",") != strings.Join(wantIn, ",") {
+			return fmt.Errorf("%s: second GetDaysInMonth = %v, first answer was %v", desc, in2, wantIn)
+		}
 		if g, x := w.GetIndex(), indexInMonth(y, m, d, c.Start); g != x {
 			return fmt.Errorf("%s: GetIndex=%d, %d week starts passed in the month", desc, g, x)
 		}
